@@ -418,9 +418,24 @@ def _run_symbolic(fstr, f, vars_, trunc=False):
         if set(snapshot) != set(got) or got is first:
             got = dict(got)
             got["__not_fresh__"] = 1
+        if trunc and f.get("suffix"):
+            # optional argument: a caller-supplied suffix list (here: only this formula's own suffix plus an unrelated one) reads the same
+            alt = parsing.formula_to_composition(fstr, suffixes=("(cr)", f["suffix"]))
+            if set(alt) != set(got):
+                got = dict(got)
+                got["__custom_suffixes_differ__"] = 1
+            else:
+                got = dict(got)
+                for k_ in alt:
+                    got[("alt", k_)] = alt[k_]
     finally:
         del parsing.float, parsing.int
     exp = oracle(f, lambda p: vars_[ph_str(p)])
+    if trunc and f.get("suffix"):
+        exp = dict(exp)
+        for k_ in list(exp):
+            if not isinstance(k_, tuple):
+                exp[("alt", k_)] = exp[k_]
     return got, exp
 
 
@@ -438,6 +453,10 @@ got[0] = 99; got[999] = 1          # the caller owns the returned mapping
 got = formula_to_composition(f)    # a later parse of the same text must not see that
 print(f, got, exp)
 ok = set(got) == set(exp) and all(abs(got[k] - exp[k]) < 1e-9 * max(1, abs(exp[k])) for k in exp) and got2 == got
+for suf in ("(s)", "(l)", "(g)", "(aq)"):
+    if f.endswith(suf):
+        alt = formula_to_composition(f, suffixes=("(cr)", suf))   # a caller-supplied suffix list reads the same
+        ok = ok and alt == got
 sys.exit(0 if ok else 1)
 '''
 
